@@ -13,6 +13,7 @@
  *   -DCQV_PT_RLOG      : BODIES for the thrift_read_* functions: the FIRST thrift_read_field_begin call serves one
  *                        ghost field (cqv_rl_type, cqv_rl_id), every later call returns false (all nested structs are
  *                        empty); each reader / thrift_skip counts its calls (C13 parser dispatch lemma, C17 ids).
+ *   -DCQV_PT_ARENA_BODIES : carquet_arena_* as bodies over malloc instead of contracts (no --replace-call-with-contract).
  *   -DCQV_PT_DECLS     : declarations / macros / extern ghost only (for inclusion in a harness).
  *
  * Reader contracts say only what every implementation of a compact-protocol reader over a
@@ -25,6 +26,7 @@
 #include "cqv.h"
 #include <stdbool.h>
 #include <stdarg.h>
+#include <stdlib.h>
 #include "thrift/parquet_types.h"
 #include "parquet_thrift_table.h"
 
@@ -197,6 +199,37 @@ void carquet_error_set(carquet_error_t* error, carquet_status_t code, const char
   }
 }
 
+
+#ifdef CQV_PT_ARENA_BODIES
+/* arena entry points as BODIES over CBMC's malloc (instead of contracts with is_fresh): NULL or a fresh object of the
+ * requested size; with -DCQV_ALLOC_NEVER_FAILS the request always succeeds */
+static void* cqv_arena_get(size_t n) {
+  __CPROVER_assert(n <= ((size_t)1 << 52), "arena request size is sane (count and element size were validated)");
+  void* p = malloc(n);
+#ifdef CQV_ALLOC_NEVER_FAILS
+  __CPROVER_assume(p != NULL);
+#else
+  if (nondet_bool()) p = NULL;
+  if (p == NULL) cqv_alloc_failed = 1;
+#endif
+  return p;
+}
+void* carquet_arena_calloc(carquet_arena_t* arena, size_t count, size_t size) {
+  __CPROVER_assert(count <= CQV_MAXBUF && size <= 4096, "calloc count validated before the allocation");
+  if (count == 0 || size == 0) return NULL;
+  return cqv_arena_get(count * size);
+}
+char* carquet_arena_strdup(carquet_arena_t* arena, const char* str) { return str ? (char*)cqv_arena_get(1) : NULL; }
+char* carquet_arena_strndup(carquet_arena_t* arena, const char* str, size_t max_len) {
+  __CPROVER_precondition(str == NULL || max_len == 0 || __CPROVER_r_ok(str, max_len), "strndup source readable");
+  return str ? (char*)cqv_arena_get(1) : NULL;
+}
+void* carquet_arena_memdup(carquet_arena_t* arena, const void* src, size_t size) {
+  if (!src || size == 0) return NULL;
+  __CPROVER_precondition(__CPROVER_r_ok(src, size), "memdup source readable");
+  return cqv_arena_get(size);
+}
+#endif /* CQV_PT_ARENA_BODIES */
 
 #ifdef CQV_PT_RLOG
 int cqv_rl_type, cqv_rl_id, cqv_rl_count, cqv_rl_calls;
